@@ -37,8 +37,12 @@
     reach_allReadable               fixed manifest writes: no reachable store has a torn manifest
     pull_succeeds_reachable         fixed variant: from EVERY reachable store a pull (honest, total registry) succeeds
     rerun_converges_pull_reachable  clause 3 for pull from every reachable store, BOTH start-up configurations
-  `rerun_converges` for create is not a theorem (client re-upload after prune, recorded blob size needs
-  collision-freeness); F19a/F19b are the Lean-checked counterexamples for the pinned variant.
+  Also round 7: rerun_ok_partial (the `.ok` half of clause 3 for upload/copy/delete), rerun_converges_upload,
+  rerun_converges_create (honest client, no length-collision of `hash` at the gguf digest),
+  rerun_converges_delete_blobs (clause 4 on blobs/, default configuration) with the NOPRUNE counterexample F28,
+  F27a/F27b witnesses (a registry that serves damaged bytes is inside the model), and the capstone
+    c12_all_clauses                 every clause of the property, every reachable store, every fitting operation
+  F19a/F19b are the Lean-checked counterexamples for the pinned variant.
 -/
 import OllamaVerif.Proofs.StoreCrashReach
 namespace OllamaVerif.C12
@@ -1144,5 +1148,69 @@ example :
     get (run p wStoreA) (.blob "d2") = some (.raw [2]) ∧
     get (restartWith wEnvA (run p wStoreA)) (.blob "d2") = none ∧
     (op.exec wEnvA (restartWith wEnvA (run p wStoreA))).ok = true := by decide
+
+
+
+/-! ## Round 7 — the property, all clauses, one statement (fixed variant) -/
+
+/-- what the environment of an operation has to be like for clause 3 to be expected at all: the registry of a
+pull is honest and serves every layer of the manifest; the client of a create/upload is honest (bytes hash
+to the digests it names), uploads the gguf blob, and `hash` has no length-collision at that digest -/
+def OpFit (hash : Bytes → Digest) (world : Digest → Option Bytes) : Op → Prop
+  | .pull reg _ m => (∀ d data, reg d = some data → world d = some data) ∧ ∀ l ∈ m.all, (reg l.digest).isSome = true
+  | .create _ ups file _ _ => (∀ u ∈ ups, hash u.2 = u.1) ∧ (∃ body, (file, body) ∈ ups) ∧
+      ∀ bs bs', hash bs = file → hash bs' = file → bs.length = bs'.length
+  | .upload _ d body => hash body = d
+  | _ => True
+
+theorem OpFit.opW {hash : Bytes → Digest} {world : Digest → Option Bytes} {op : Op} (h : OpFit hash world op) :
+    OpW world op := by
+  cases op <;> first | trivial | exact h.1
+
+/-- **C12, every clause, every history (fixed variant, both start-up configurations).**  `st` reachable by
+any history of operations / crashes / start-ups; any operation that fits (`OpFit`) and succeeds when not
+interrupted; any crash prefix `p` of it (last data write cut at any byte); `st1` = the store after the
+start-up sequence.  Then
+1. every readable manifest of `st1` has all its layers present with bytes that hash to their names;
+2. every name the operation does not involve keeps its manifest file and the blobs it names;
+3. the repeated operation succeeds — or it is a delete whose manifest is already gone (it took effect);
+4. after the repeated operation every manifest file is what the uninterrupted operation leaves (blobs/:
+   `rerun_converges_delete_blobs`, `rerun_converges_upload`), and the invariant holds again. -/
+theorem c12_all_clauses {hash : Bytes → Digest} {env : Env} {world : Digest → Option Bytes}
+    (henv : EnvOK hash env) (hworld : ∀ d data, world d = some data → hash data = d)
+    (hat : env.atomicMan = true) (hap : env.atomicPart = true)
+    {st : Store} (hr : Reach env world st) (op : Op) (hfit : OpFit hash world op)
+    (hok : (op.exec env st).ok = true) (p : List Effect) (hp : CrashPrefix (op.exec env st).effs p) :
+    NameInv hash (restartWith env (run p st)) ∧
+    (∀ n, n ∉ op.involved → Untouched n st (restartWith env (run p st))) ∧
+    ((op.exec env (restartWith env (run p st))).ok = true ∨
+      ∃ n, op = .delete n ∧ get (restartWith env (run p st)) (.man n) = none) ∧
+    (∀ n', get (run (op.exec env (restartWith env (run p st))).effs (restartWith env (run p st))) (.man n') =
+           get (run (op.exec env st).effs st) (.man n')) ∧
+    Inv hash (run (op.exec env (restartWith env (run p st))).effs (restartWith env (run p st))) := by
+  have hcs := crash_safe_reachable henv hworld hr op hfit.opW p hp
+  have hinv := (reach_inv henv hworld hr).1
+  refine ⟨hcs.1, hcs.2.2.1, ?_⟩
+  cases op with
+  | upload k d body =>
+    have h := rerun_converges_partial henv hat hinv (.upload k d body) rfl p hp
+    exact ⟨rerun_ok_partial hat st _ rfl hok p hp, h.1, h.2⟩
+  | copy src dst =>
+    have h := rerun_converges_partial henv hat hinv (.copy src dst) rfl p hp
+    exact ⟨rerun_ok_partial hat st _ rfl hok p hp, h.1, h.2⟩
+  | delete n =>
+    have h := rerun_converges_partial henv hat hinv (.delete n) rfl p hp
+    exact ⟨rerun_ok_partial hat st _ rfl hok p hp, h.1, h.2⟩
+  | pull reg n m =>
+    have h := rerun_converges_pull_reachable henv hworld hat hap hr reg hfit.1 n m hfit.2 p hp
+    exact ⟨Or.inl h.1, h.2.1, h.2.2⟩
+  | create n ups file datas cfg =>
+    have h := rerun_converges_create henv hat hinv n ups file datas cfg hfit.1 hfit.2.1 hfit.2.2 p hp
+    exact ⟨Or.inl h.1, h.2.1, h.2.2⟩
+
+/-- non-vacuity: the reachable store `wH2` (models built by an upload and a pull), the pull of `f` that has
+to download d2, fits and succeeds -/
+example : OpFit wHash wReg wPull ∧ (wPull.exec wEnvA wH2).ok = true ∧ Reach wEnvA wReg wH2 :=
+  ⟨⟨fun _ _ h => h, by decide⟩, by decide, wH2_reach⟩
 
 end OllamaVerif.C12
